@@ -426,6 +426,11 @@ def oracle(case):
             if got != expect_obs:
                 return {'signature': 'observations-differ', 'detail': f'lost {[k for k in expect_obs if k not in got][:3]} '
                         f'extra {[k for k in got if k not in expect_obs][:3]}'}
+    # a part named in the skip list is absent from the merge, the reconstruction parts too
+    if 'Observations' in case['skip'] and md['observations']:
+        return {'signature': 'skip-not-absent', 'detail': f'observations are in the skip list, the merge has {len(md["observations"])} of them'}
+    if 'Points3d' in case['skip'] and md['points3d'] is not None and md['points3d']['rows']:
+        return {'signature': 'skip-not-absent', 'detail': 'points3d is in the skip list but present in the merge'}
     if case['strategy'] in ('copy', 'link_absolute', 'link_relative'):
         for part in ('records_camera', 'records_depth'):
             if mc.TYPE_OF_ATTR[part] in case['skip']:
